@@ -130,6 +130,10 @@ func VerifC28Step() {
 		hm.unlockedAddHostInfo(hs[1], f)
 		hm.unlockedAddHostInfo(hs[2], f)
 		hm.unlockedDeleteHostInfo(hs[1])
+	case 6: // two tunnels, one already removed: a delete of it again leaves exactly one sibling
+		hm.unlockedAddHostInfo(hs[0], f)
+		hm.unlockedAddHostInfo(hs[1], f)
+		hm.unlockedDeleteHostInfo(hs[1])
 	default:
 		hm.unlockedAddHostInfo(hs[2], f)
 		hm.unlockedAddHostInfo(hs[0], f)
@@ -170,9 +174,8 @@ func c28Op(hm *HostMap, f *Interface, hs *[c28N]*HostInfo, op, w int) {
 		}
 		final := hm.unlockedDeleteHostInfo(h)
 		verifAssert(!c28Live(hm, h), "a deleted tunnel is not live")
-		if wasLive {
-			verifAssert(final == (!othersA && !othersB), "deletion reports `last tunnel` exactly when no other tunnel holds any of its addresses")
-		}
+		_ = wasLive // also for a tunnel that was already removed (double delete): the report is about the OTHER tunnels
+		verifAssert(final == (!othersA && !othersB), "deletion reports `last tunnel` exactly when no other tunnel holds any of its addresses")
 	default: // promote (possibly a tunnel that was removed)
 		wasLive := c28Live(hm, h)
 		pa, pb := hm.Hosts[c28A], hm.Hosts[c28B]
